@@ -95,7 +95,7 @@ impl Json {
 }
 
 struct SerializableContext<'a, 'b, Span, N>(
-    &'b crate::subscribe::Context<'a, Span>,
+    &'b crate::registry::SpanRef<'a, Span>,
     std::marker::PhantomData<N>,
 )
 where
@@ -114,10 +114,8 @@ where
         use serde::ser::SerializeSeq;
         let mut serializer = serializer_o.serialize_seq(None)?;
 
-        if let Some(leaf_span) = self.0.lookup_current() {
-            for span in leaf_span.scope().from_root() {
-                serializer.serialize_element(&SerializableSpan(&span, self.1))?;
-            }
+        for span in self.0.scope().from_root() {
+            serializer.serialize_element(&SerializableSpan(&span, self.1))?;
         }
 
         serializer.end()
@@ -235,10 +233,9 @@ where
 
             let current_span = if self.format.display_current_span || self.format.display_span_list
             {
-                event
-                    .parent()
-                    .and_then(|id| ctx.span(id))
-                    .or_else(|| ctx.lookup_current())
+                // the leaf of the *event's* scope: its explicit parent if it has
+                // one, nothing if it is an explicit root, the current span otherwise
+                ctx.event_scope().and_then(|mut scope| scope.next())
             } else {
                 None
             };
@@ -277,11 +274,13 @@ where
                 }
             }
 
-            if self.format.display_span_list && current_span.is_some() {
-                serializer.serialize_entry(
-                    "spans",
-                    &SerializableContext(&ctx.ctx, format_field_marker),
-                )?;
+            if self.format.display_span_list {
+                if let Some(ref span) = current_span {
+                    serializer.serialize_entry(
+                        "spans",
+                        &SerializableContext(span, format_field_marker),
+                    )?;
+                }
             }
 
             if self.display_thread_name {
